@@ -138,7 +138,9 @@ def _driver_mode() -> str:
     return _DRIVER_MODE
 
 
-def _scratch_driver(lines: list[str], shards: int) -> list[str]:
+def _sharded_driver(lines: list[str], shards: int, compiled: bool) -> list[str]:
+    """run the request lines through `shards` driver processes (the compiled `pestdriver`, or the handler
+    from a scratch main); one answer line per request"""
     import tempfile
     from pathlib import Path
 
@@ -157,13 +159,16 @@ def _scratch_driver(lines: list[str], shards: int) -> list[str]:
             fin = Path(td) / f"in{i}"
             fin.write_text("\n".join(chunk) + "\n")
             fh = open(fin)
-            p = subprocess.Popen(["lake", "env", "lean", "--run", str(main)], cwd=LEAN, stdin=fh,
-                                 stdout=subprocess.PIPE, stderr=subprocess.PIPE, text=True)
-            procs.append((p, fh, len(chunk)))
-        for p, fh, n in procs:
-            data, _ = p.communicate()
+            # answers go to files, not pipes: a full pipe would stall every shard but the one being read
+            fo = open(Path(td) / f"out{i}", "w")
+            cmd = [str(DRIVER)] if compiled else ["lake", "env", "lean", "--run", str(main)]
+            p = subprocess.Popen(cmd, cwd=LEAN, stdin=fh, stdout=fo, stderr=subprocess.DEVNULL, text=True)
+            procs.append((p, fh, fo, len(chunk), i))
+        for p, fh, fo, n, i in procs:
+            p.wait()
             fh.close()
-            got = data.split("\n")
+            fo.close()
+            got = (Path(td) / f"out{i}").read_text().split("\n")
             if got and got[-1] == "":
                 got.pop()
             if p.returncode != 0 or len(got) != n:
@@ -184,10 +189,7 @@ def lean(lines: list[str]) -> list[str]:
     # chunks the drivers are given mix short and long documents
     order = [i for k in range(shards) for i in range(k, len(lines), shards)]
     permuted = [lines[i] for i in order]
-    if _driver_mode() == "pestdriver":
-        got = run_driver(permuted, shards=shards)
-    else:
-        got = _scratch_driver(permuted, shards)
+    got = _sharded_driver(permuted, shards, compiled=_driver_mode() == "pestdriver")
     out = [""] * len(lines)
     for slot, i in enumerate(order):
         out[i] = got[slot]
